@@ -109,9 +109,12 @@ Proof. exact key_ok_valid_utf8. Qed.
 Print Assumptions C17_map_keys.
 
 (* The float side condition is decidable ([float_okb], sound: float_okb f = true -> float_ok f).
-   NOT a universal theorem: a computed sample -- every dyadic (2k+1)/2^j, k < 300, j in
-   {0,1,2,3,5,9,10,14,20}, of either sign, that the printer model can print at all
-   (magnitude >= 2^-9, at most 15 significant digits) reads back as itself. *)
+   NOT a universal theorem: a computed sample -- every dyadic (2k+1)/2^j, k < 60, j in
+   {0,1,2,3,5,9,10,14,20}, of either sign (1080 values) is printed by the printer model
+   (Num.fl_to_string covers all finite floats) and reads back as itself.  A float whose shortest
+   representation is NOT its exact decimal expansion (16 or 17 significant digits, e.g. 599/2^20 =
+   0.00057125091552734375, printed by Go as 0.0005712509155273438) is outside wf_expr: the literal
+   reader of the model (NumLit.parse_float) reads exact decimals only, so float_ok does not hold. *)
 Theorem C17_float_checker_sound : forall f, float_okb f = true -> float_ok f.
 Proof. exact float_okb_sound. Qed.
 Print Assumptions C17_float_checker_sound.
@@ -119,11 +122,11 @@ Print Assumptions C17_float_checker_sound.
 Fixpoint c17_upto (n : nat) : list Z := match n with O => [] | S k => Z.of_nat k :: c17_upto k end.
 Definition c17_float_samples : list fl :=
   flat_map (fun k => flat_map (fun j => match mk_fl (2 * k + 1) (- Z.of_nat j) with Some f => [f; fl_neg f] | None => [] end)
-                              [0; 1; 2; 3; 5; 9; 10; 14; 20]%nat) (c17_upto 300).
+                              [0; 1; 2; 3; 5; 9; 10; 14; 20]%nat) (c17_upto 60).
 Example C17_float_sample :
-  forallb (fun f => match fl_print f with Some _ => float_okb f | None => true end) c17_float_samples = true
-  /\ length (filter float_okb c17_float_samples) = 3600%nat.
-Proof. vm_compute. split; reflexivity. Qed.
+  forallb float_okb c17_float_samples = true /\ length c17_float_samples = 1080%nat /\
+  fl_print (FFin 599 (-20)) = Some (b "0.0005712509155273438") /\ float_okb (FFin 599 (-20)) = false.
+Proof. vm_compute. repeat split; reflexivity. Qed.
 
 (* ---- non-vacuity: concrete well-formed trees, printed and read back by computation ---- *)
 Definition ex_nested : node :=            (* (1 + $a.b?[0]) * -(5) *)
